@@ -1,6 +1,7 @@
 package props
 
 import (
+	"bytes"
 	"fmt"
 	"html/template"
 	"io"
@@ -187,7 +188,7 @@ func c16Run(c *Ctx, i int, r *gen.R) {
 	jobs := make([]*c16Job, G)
 	pool := c16Pool(r)
 	for g := range jobs {
-		spec := r.Table(gen.TableOpts{MaxCols: 4, MaxRows: 5, ZeroHeaderOK: true, MinCols: 0, Noise: gen.NoiseSkipable | gen.NoiseAlign,
+		spec := r.Table(gen.TableOpts{MaxCols: 4, MaxRows: 5, ZeroHeaderOK: true, MinCols: 0, Noise: gen.NoiseSkipable | gen.NoiseAlign | gen.NoiseCallbacks,
 			Item: func(r *gen.R) gen.ItemSpec {
 				if r.Chance(1, 10) {
 					return c04Item(r)
@@ -308,13 +309,126 @@ func c16Run(c *Ctx, i int, r *gen.R) {
 	}
 }
 
+// ---- many renders in flight at the same instant
+
+// c16Gate lets every one of N goroutines block inside the first Write of its render until all N are there (a
+// render that finishes without writing counts as arrived), so that N renders of N independent tables are in
+// flight at once - what a server writing to N slow connections sees.
+type c16Gate struct {
+	mu   sync.Mutex
+	need int
+	have int
+	ch   chan struct{}
+}
+
+func (g *c16Gate) arrive() {
+	g.mu.Lock()
+	g.have++
+	if g.have == g.need {
+		close(g.ch)
+	}
+	g.mu.Unlock()
+}
+
+type c16GateWriter struct {
+	g       *c16Gate
+	arrived bool
+	b       []byte
+}
+
+func (w *c16GateWriter) Write(p []byte) (int, error) {
+	if !w.arrived {
+		w.arrived = true
+		w.g.arrive()
+		<-w.g.ch
+	}
+	w.b = append(w.b, p...)
+	return len(p), nil
+}
+
+func c16InFlight(c *Ctx, i int, r *gen.R) {
+	ns := []int{65, 100, 130, 200, 257, 70}
+	N := ns[i%len(ns)]
+	tos := []struct {
+		name string
+		to   func(t tabular.Table, w io.Writer) error
+	}{
+		{"text", func(t tabular.Table, w io.Writer) error { return texttable.Wrap(t).RenderTo(w) }},
+		{"csv", func(t tabular.Table, w io.Writer) error { return csv.Wrap(t).RenderTo(w) }},
+		{"json", func(t tabular.Table, w io.Writer) error { return json.Wrap(t).RenderTo(w) }},
+		{"markdown", func(t tabular.Table, w io.Writer) error { return markdown.Wrap(t).RenderTo(w) }},
+		{"html", func(t tabular.Table, w io.Writer) error { return html.Wrap(t).RenderTo(w) }},
+		{"auto:utf8-light", func(t tabular.Table, w io.Writer) error { return auto.RenderTo(t, w, "utf8-light") }},
+	}
+	// one format for the whole batch in half of the cases (N renders of the same kind in flight), mixed otherwise
+	same := -1
+	if i%2 == 0 {
+		same = (i / 2) % len(tos)
+	}
+	build := func(g int) tabular.Table {
+		t := tabular.New()
+		t.AddHeaders("k", "v")
+		t.AddRowItems(fmt.Sprintf("goroutine %d", g), g)
+		t.AddSeparator()
+		t.AddRowItems("two\nlines", strings.Repeat("w", g%7))
+		return t
+	}
+	pick := func(g int) int {
+		if same >= 0 {
+			return same
+		}
+		return g % len(tos)
+	}
+	desc := map[string]interface{}{"renders_in_flight_at_once": N, "formats": "mixed"}
+	if same >= 0 {
+		desc["formats"] = tos[same].name
+	}
+	c.Case = desc
+	gate := &c16Gate{need: N, ch: make(chan struct{})}
+	got := make([]string, N)
+	gerr := make([]bool, N)
+	var wg sync.WaitGroup
+	for g := 0; g < N; g++ {
+		wg.Add(1)
+		go func(g int) {
+			defer wg.Done()
+			w := &c16GateWriter{g: gate}
+			p, val, st := Guard(func() {
+				t := build(g)
+				gerr[g] = tos[pick(g)].to(t, w) != nil
+			})
+			if !w.arrived {
+				w.arrived = true
+				gate.arrive()
+			}
+			if p {
+				c.Rec.ViolateStack("panic-with-many-renders-in-flight@"+PanicSite(st), fmt.Sprintf("%d renders of independent tables were in flight at once; goroutine %d (%s) panicked: %v", N, g, tos[pick(g)].name, val), desc, st)
+			}
+			got[g] = string(w.b)
+		}(g)
+	}
+	wg.Wait()
+	c.Rec.Eval(gen.Hash64("inflight", fmt.Sprint(N, same)), true)
+	c.Rec.Count("batches_with_all_renders_in_flight_at_once", 1)
+	c.Rec.Max("max:renders_in_flight_at_once", int64(N))
+	for g := 0; g < N; g++ {
+		var b bytes.Buffer
+		rerr := tos[pick(g)].to(build(g), &b)
+		c.Rec.Count("outputs_compared_with_sequential", 1)
+		if got[g] != b.String() || gerr[g] != (rerr != nil) {
+			c.Rec.Violate("concurrent-output-differs:in-flight:"+formatClass(tos[pick(g)].name), fmt.Sprintf("with %d renders in flight, goroutine %d (%s) wrote %q (error=%v); the same table rendered alone gives %q (error=%v)", N, g, tos[pick(g)].name, got[g], gerr[g], b.String(), rerr != nil), desc)
+			return
+		}
+	}
+}
+
 func init() {
 	register(&Prop{
 		ID:     "C16",
 		Level:  "exploration",
 		Race:   true,
 		Shards: raceShards,
-		Rule: "built with -race; shards run at GOMAXPROCS = all cores, 2, 4, 1. One case = one barrier-released batch of G goroutines (G cycles through 2, 8, 16, 32, 64), each owning a random table spec (as in C10, with alignments and occasional size-declaring items) which it builds and renders in all 17 formats (csv, json, markdown, html twice through one wrapper with caption/generator/context, auto markdown, text under the six built-in decorations, auto utf8-double, and json/csv/markdown/html/text through RenderTo into a writer that yields the processor on every Write - the caller's writer is the library's one suspension point) in a goroutine-specific order - half of the goroutines on one table of their own for all renders (so that state accumulates on it), the others on a freshly built table per render -, with property traffic on its own table, column 0 and first cell before every render (three keys in rotating order, read back after the render and compared like the output); two thirds of the tables also take a row of by-value copies of up to 7 cells the parent prepared once per batch (values of common provenance: each table owns its copies), and the same cells as items; a sixth of the tables hold an item the JSON encoder refuses, so that renders fail part-way during the batch; while 2 background goroutines read RegisteredDecorationNames/Named/auto.ListStyles in a loop. After the batch the same specs are built and rendered alone to obtain reference bytes (afterwards, so that grow-only process-wide state is first touched concurrently); 1/25 of the cells are 81-400 characters wide; every concurrent output must equal its reference. " +
+		Rule: "built with -race; shards run at GOMAXPROCS = all cores, 2, 4, 1. One case = one barrier-released batch of G goroutines (G cycles through 2, 8, 16, 32, 64), each owning a random table spec (as in C10, with alignments and occasional size-declaring items) which it builds and renders in all 17 formats (csv, json, markdown, html twice through one wrapper with caption/generator/context, auto markdown, text under the six built-in decorations, auto utf8-double, and json/csv/markdown/html/text through RenderTo into a writer that yields the processor on every Write - the caller's writer is the library's one suspension point) in a goroutine-specific order - half of the goroutines on one table of their own for all renders (so that state accumulates on it), the others on a freshly built table per render -, with property traffic on its own table, column 0 and first cell before every render (three keys in rotating order, read back after the render and compared like the output); two thirds of the tables also take a row of by-value copies of up to 7 cells the parent prepared once per batch (values of common provenance: each table owns its copies), and the same cells as items; a sixth of the tables hold an item the JSON encoder refuses, so that renders fail part-way during the batch; while 2 background goroutines read RegisteredDecorationNames/Named/auto.ListStyles in a loop. After the batch the same specs are built and rendered alone to obtain reference bytes (afterwards, so that grow-only process-wide state is first touched concurrently); 1/25 of the cells are 81-400 characters wide; every concurrent output must equal its reference. phase 1: N = 65, 70, 100, 130, 200 or 257 goroutines each render a table of their own (one format for the whole batch, or six formats mixed) into a writer whose first Write blocks until all N renders have got that far, so that N renders are in flight at the same instant; no panic, and every output equals the same table rendered alone. " +
 			"distinct_nontrivial counts distinct interleaving signatures (global completion order of the renders by goroutine id). The race detector's log is parsed by the parent; every report with a tabular frame is a violation; a fatal runtime error in the child is a violation.",
 		Assumptions: []string{
 			"each goroutine owns its tables and wrappers; sharing one table or wrapper between goroutines is out of scope (documented as unsupported for HTMLTable with a generator context)",
@@ -322,6 +436,7 @@ func init() {
 		},
 		Phases: []Phase{
 			{Name: "barrier-released batches of goroutines building and rendering their own tables", N: Fixed(24, 1200), Run: func(c *Ctx, i int, r *gen.R) { withProcs(c, func() { c16Run(c, i, r) }) }},
+			{Name: "65-257 renders of independent tables all in flight at the same instant (each blocked in its first Write until all are there)", N: Fixed(12, 240), Run: func(c *Ctx, i int, r *gen.R) { withProcs(c, func() { c16InFlight(c, i, r) }) }},
 		},
 	})
 }
